@@ -41,6 +41,10 @@ func Dot(spec *Spec, w io.WriteCloser, fromNode, toNode string) error {
 	// Use copies of states that don't have Name set.
 	nodes := make(map[string]*Node, len(spec.Nodes))
 	for name, n := range spec.Nodes {
+		if n == nil {
+			// As Compile does: a null node is an empty node.
+			n = &Node{}
+		}
 		nodes[name] = n
 	}
 
